@@ -261,6 +261,20 @@ func (r *Router) Inject(from, to net.Addr, data []byte, extra time.Duration) {
 	r.deliver(dir, p, extra, false)
 }
 
+// StartPhase restarts the per-direction ordinals (and the log) and installs a fault map:
+// used by scenarios whose faults apply to a later connection only.
+func (r *Router) StartPhase(faults FaultMap) {
+	r.mu.Lock()
+	r.count = [2]int{}
+	r.bytes = [2]int{}
+	r.log = nil
+	r.Faults = faults
+	r.mu.Unlock()
+}
+
+// StartTime is the instant event times are measured from.
+func (r *Router) StartTime() time.Time { return r.start }
+
 // Log returns a copy of the datagram log.
 func (r *Router) Log() []Event {
 	r.mu.Lock()
